@@ -9,10 +9,12 @@
 mod galloc;
 mod dump;
 mod gen;
+mod parse;
 mod rec;
 mod refint;
 mod run;
 mod shrink;
+mod sv;
 mod tape;
 
 use std::io::{BufRead, Write};
@@ -80,6 +82,8 @@ fn worker() {
             "tape" => tape::op_tape(&req),
             "dumpbc" => dump::op_dumpbc(&req),
             "dumpir" => dump::op_dumpir(&req),
+            "parse" => parse::op_parse(&req),
+            "sv" => sv::op_sv(&req),
             "ping" => println!("{}", json!({"pong": 1, "debug": cfg!(debug_assertions)})),
             other => println!("{}", json!({"error": format!("unknown op {other}")})),
         }
